@@ -48,7 +48,15 @@ def _witnesses(base_cfg, wd, with_al):
     remote_w = {"W_NoResume", "W_NoLossInFlight", "W_NoRemoteRestart", "W_NoAlClosed"}
     for w in names:
         scen = '{"remote"}' if w in remote_w else '{"local"}'
-        jobs[w] = base.replace('Scenarios = {"local", "remote"}', "Scenarios = " + scen) + "INVARIANT %s\n" % w
+        text = base.replace('Scenarios = {"local", "remote"}', "Scenarios = " + scen)
+        if w == "W_NoAlClosed":
+            text = text.replace("AlReader = FALSE", "AlReader = TRUE")
+        jobs[w] = text + "INVARIANT %s\n" % w
+    # the lead behind assumption A_CreateBeforePoll (see Results.tla) must be there when the assumption is dropped
+    if with_al:
+        jobs["A_CreateBeforePoll_lead"] = (base.replace('Scenarios = {"local", "remote"}', 'Scenarios = {"remote"}')
+                                           .replace("AlReader = FALSE", "AlReader = TRUE")
+                                           .replace("A_CreateBeforePoll = TRUE", "A_CreateBeforePoll = FALSE") + "INVARIANT NoEarlyEnd\n")
     # the spec family contains the defect of the pinned tree: with GetResults as pinned, EndsWhenDone has a counter-example
     jobs["KF_CancelNotComplete_counterexample"] = (
         base.replace("KF_CancelNotComplete = FALSE", "KF_CancelNotComplete = TRUE")
@@ -57,7 +65,9 @@ def _witnesses(base_cfg, wd, with_al):
     def one(item):
         name, text = item
         r = vlib.tlc("Results", "wit_%s.cfg" % name, wd, timeout=900, workers=2, cfg_text=text)
-        if name.startswith("KF_"):
+        if name == "A_CreateBeforePoll_lead":
+            ok = r.violated == "NoEarlyEnd"
+        elif name.startswith("KF_"):
             ok = bool(re.search(r"Temporal propert(y EndsWhenDone was|ies were) violated", r.output)) and '"Canceled"' in r.output
         else:
             ok = r.violated == name
@@ -78,9 +88,11 @@ def run(tier, seed, replay=None):
     quick = tier == "quick"
     cfg = "Results_quick.cfg" if quick else "Results_full.cfg"
     t0 = time.time()
-    ex = cf.ThreadPoolExecutor(max_workers=3)
-    fw = ex.submit(_witnesses, "Results_quick.cfg", wd, False)   # independent of the main run: start at once
-    r = vlib.tlc("Results", cfg, wd, timeout=2400, heap="12g", workers=min(8, vlib.NCPU) if quick else None)
+    ex = cf.ThreadPoolExecutor(max_workers=4)
+    fw = ex.submit(_witnesses, "Results_quick.cfg", wd, not quick and not replay)   # independent of the main run: start at once
+    # thorough: a second exhaustive run with a client reading the mirrored copy on the submitting node (reader "al")
+    fal = None if quick or replay else ex.submit(vlib.tlc, "Results", "Results_al.cfg", wd, 8, 2400)
+    r = vlib.tlc("Results", cfg, wd, timeout=2400, heap="12g", workers=min(8, vlib.NCPU))
     vlib.log("TLC %s: %d distinct / %d generated states, depth %d, %.0fs" % (cfg, r.distinct, r.generated, r.depth, r.wall))
     if not r.ok:
         raise vlib.Inconclusive("TLC did not succeed on %s (exit %s, violated=%s):\n%s" % (cfg, r.exit, r.violated, r.output[-3000:]))
@@ -119,6 +131,11 @@ def run(tier, seed, replay=None):
     vlib.log("remote part done (%.0fs since start)" % (time.time() - t0))
     wit = fw.result()
     vlib.log("witnesses found: %d (%.0fs since start)" % (len(wit), time.time() - t0))
+    ral = fal.result() if fal else None
+    if ral is not None:
+        vlib.log("TLC Results_al.cfg: %d distinct / %d generated states, %.0fs" % (ral.distinct, ral.generated, ral.wall))
+        if not ral.ok:
+            raise vlib.Inconclusive("TLC did not succeed on Results_al.cfg (exit %s, violated=%s):\n%s" % (ral.exit, ral.violated, ral.output[-3000:]))
     ex.shutdown()
 
     inconclusive = []
@@ -149,7 +166,8 @@ def run(tier, seed, replay=None):
     if not samples:
         samples = [{"note": "replay run"}]
     cov = {
-        "states": r.distinct, "transitions": r.generated, "traces_validated_against_impl": 0,
+        "states": r.distinct + (ral.distinct if ral else 0), "transitions": r.generated + (ral.generated if ral else 0),
+        "traces_validated_against_impl": 0,
         "evaluations": g(lres, "evaluations") + g(rres, "evaluations"),
         "distinct_nontrivial": g(lres, "distinct") + g(rres, "distinct"),
         "rule": "Results.tla (%s) is checked exhaustively by TLC (all chunkings, all start offsets, every interleaving of producer, "
@@ -162,7 +180,9 @@ def run(tier, seed, replay=None):
         "samples": samples, "exhaustive": False,
         "spec_exhaustive_within_constants": True,
         "vectors": nvec, "fault_schedules": nsched, "counters": counters, "witnesses": wit,
-        "tlc": {"spec": "Results.tla", "cfg": cfg, "generated": r.generated, "distinct": r.distinct, "depth": r.depth, "wall_s": round(r.wall, 1)},
+        "tlc": [{"spec": "Results.tla", "cfg": cfg, "generated": r.generated, "distinct": r.distinct, "depth": r.depth, "wall_s": round(r.wall, 1)}] +
+               ([{"spec": "Results.tla", "cfg": "Results_al.cfg", "generated": ral.generated, "distinct": ral.distinct, "depth": ral.depth,
+                  "wall_s": round(ral.wall, 1)}] if ral else []),
     }
     return v.finish("model_checking", cov, assumptions=[
         "payloads write to stdout only while they run (no background writer survives the payload); the runner records the final size after the payload has exited",
